@@ -239,16 +239,7 @@ def load_known_c():
 
 
 def known_class(c, errclass):
-    """decidable class predicates of the known findings: the returned error and the constructs on the evaluation's own thread"""
-    mp = list(main_part(c["shape"]))
-    if errclass == "ctxtext" and any(x[0] == "C" and x[1] in STRINGIFIERS for x in mp):
-        return "C06-callback-error-text"
-    if errclass == "waiterr" and any(x == ("B", "wait") for x in mp):
-        return "C06-wait-error-text"
-    if errclass == "nil" and any(x[0] == "C" and x[1] == "try" for x in mp):
-        return "C06-try-swallows-cancellation"
-    if errclass == "nil" and any(x[0] == "B" and x[1] in ("next", "sleep") for x in mp):
-        return "C06-wakes-silently"
+    """no known finding is left for C06: a returned error that is not the context's is a violation"""
     return None
 
 
@@ -275,7 +266,7 @@ def run(res):
     mkeys = {}
     for c in cs:
         c["mkey"] = "%s/%s" % (c["name"], model_instant(c))
-        mkeys.setdefault(c["mkey"], "%s %s 1 %s" % (c["mkey"], model_instant(c), " ".join(toks(c["shape"]))))
+        mkeys.setdefault(c["mkey"], "%s %s current %s" % (c["mkey"], model_instant(c), " ".join(toks(c["shape"]))))
     mlines = list(mkeys.values())
     nshard = min(C.NCPU, max(1, len(mlines) // 10))
     with ThreadPoolExecutor(max_workers=nshard) as ex:
